@@ -57,8 +57,18 @@ func execSctpCAnswer(toks []string) string {
 			a.WriteTo(c)
 		}()
 	})
-	if _, err := diam.NewConn(msc, "mem-sctp", h, dict.Default); err != nil {
+	conn, err := diam.NewConn(msc, "mem-sctp", h, dict.Default)
+	if err != nil {
 		return "err"
+	}
+	// pin=<k>: the application has chosen stream k for what it sends on its own account
+	// (SetWriterStream on the connection); answers still follow their requests
+	if pinS, ok := kvGet(toks, "pin"); ok {
+		if k, err := strconv.Atoi(pinS); err == nil {
+			if mw, ok := conn.(diam.MultistreamWriter); ok {
+				mw.SetWriterStream(uint(k))
+			}
+		}
 	}
 	for r := 0; r < rounds; r++ {
 		mu.Lock()
@@ -124,7 +134,11 @@ func genSctpCAnswer(r *RNG, n int, emit func(string)) {
 				ss = append(ss, strconv.Itoa(s))
 			}
 		}
-		emit(fmt.Sprintf("sctp canswer streams=%s rounds=%d", strings.Join(ss, "."), 3+r.Intn(10)))
+		line := fmt.Sprintf("sctp canswer streams=%s rounds=%d", strings.Join(ss, "."), 3+r.Intn(10))
+		if r.Chance(40) {
+			line += fmt.Sprintf(" pin=%d", r.Intn(12))
+		}
+		emit(line)
 	}
 }
 
